@@ -168,6 +168,18 @@ def lookup_key(frame, in_port):
   return k
 
 
+def strip_padding(frame):
+  """the frame without what follows its IPv4 datagram (Ethernet padding): a
+  switch that parses and re-serialises forwards this much"""
+  h = l2(frame)
+  off = h["l3off"]
+  if h["ethertype"] == ETH_IP and len(frame) >= off + 20:
+    iplen = (frame[off + 2] << 8) | frame[off + 3]
+    if 20 <= iplen <= len(frame) - off:
+      return frame[:off + iplen]
+  return frame
+
+
 def key_matches(canon, key):
   """
   canon: dict field -> None (wildcarded) | value | (addr, prefixlen), already
